@@ -64,11 +64,11 @@ TRUSTED = ["the solver: python-mip 2.0 / CBC returns an optimal feasible assignm
            "approx_SP_voter_deletion_ILP and approx_SP_alternative_deletion_ILP are MIRRORED (Model/ILPEnc.v), proved sound "
            "and complete for every size (Proofs/ILPEnc.v) and compared with the model python-mip receives (c12.enc)",
            "k_alternative_deletion / longest_single_peaked_axis (dynamic programme) is MIRRORED (Model/ELPDP.v) and proved "
-           "sound for every size (elp_sound: its output is accepted by cert_alt; approx_valid for the C18 loop); NOT "
-           "proved: its optimality (|removed| = min_alt_del) - compared with the exact verified optimum at every size "
-           "(fast_min_alt, proved equal to min_alt_del; 2-15 alternatives) and with the mirror (same number of removed "
-           "alternatives); the mirror fixes the "
-           "iteration order of CPython sets by two parameters, so (axis, removed) itself may differ: counted, not judged",
+           "sound AND optimal for every size (elp_sound: its output is accepted by cert_alt; elp_optimal: it removes "
+           "exactly min_alt_del alternatives; approx_valid for the C18 loop), for every iteration order of the CPython "
+           "sets involved; the implementation is compared with the mirror (same number of removed alternatives) and "
+           "with the exact verified optimum fast_min_alt at every size (2-15 alternatives); (axis, removed) itself may "
+           "differ from the mirror's (set iteration order): counted, not judged",
            "the three ILP functions are additionally compared end-to-end (objective = reference, certificates)"]
 ASSUMPTIONS = ["orders are complete over the instance's alternatives with non-empty classes; instance.orders holds "
                "distinct orders; the objective is unweighted (one unit per distinct order / per alternative); fewer than "
